@@ -255,7 +255,77 @@ def r07f(ctx):
         ctx.check(lin, "R07f", f"{ARZ}.{m}", "energy is an overall factor of both arms", "", key_detail="energy factor")
 
 
+def r07g(ctx):
+    """AVZ hadronic cone width: a piecewise parameterisation in epsilon = log10(E_had / 1 TeV) that is only defined for epsilon >= 0.  The arms
+    must be contiguous half-open intervals starting at 0; below that the width stays 0 and the hadronic term is skipped (a width evaluated
+    outside its domain, e.g. at epsilon = -inf for zero hadronic energy, makes the field non-finite)."""
+    repo = ctx.repo
+    ctx.rule("R07g", "AVZ hadronic width: interval arms lo < eps <= hi are contiguous from eps >= 0; default width 0; hadronic term only when the width is non-zero; "
+             "zero hadronic energy maps to eps = -inf", expected=3, kind="N")
+    AVZ = "pyrex.askaryan.AVZAskaryanSignal"
+    init = repo.member(AVZ, "__init__")
+    g = [n for n in ast.walk(init) if isinstance(n, ast.FunctionDef) and n is not init and n.name == "get_signal"]
+    if len(g) != 1:
+        ctx.unknown("R07g", AVZ, "nested get_signal found", "")
+        return
+    g = g[0]
+    chain = [n for n in g.body if isinstance(n, ast.If) and "epsilon" in u(n.test) and "had_energy" not in u(n.test)]
+    if len(chain) != 1:
+        ctx.unknown("R07g", AVZ, "one interval chain on epsilon", f"{len(chain)}")
+        return
+    arms = []
+    cur = chain[0]
+    while True:
+        arms.append(cur.test)
+        if len(cur.orelse) == 1 and isinstance(cur.orelse[0], ast.If):
+            cur = cur.orelse[0]
+        else:
+            tail = cur.orelse
+            break
+
+    def bounds(t):
+        lo = hi = None
+        parts = t.values if isinstance(t, ast.BoolOp) and isinstance(t.op, ast.And) else [t]
+        for c_ in parts:
+            if not (isinstance(c_, ast.Compare) and len(c_.ops) == 1):
+                return None
+            l, r, op = u(c_.left), u(c_.comparators[0]), type(c_.ops[0]).__name__
+            if r == "epsilon":
+                l, r, op = r, l, {"Lt": "Gt", "LtE": "GtE", "Gt": "Lt", "GtE": "LtE"}.get(op, op)
+            if l != "epsilon":
+                return None
+            try:
+                val = float(ast.literal_eval(c_.comparators[0] if u(c_.left) == "epsilon" else c_.left))
+            except Exception:
+                return None
+            if op in ("Gt", "GtE"):
+                lo = (val, op == "GtE")
+            elif op in ("Lt", "LtE"):
+                hi = (val, op == "LtE")
+        return lo, hi
+    bs = [bounds(t) for t in arms]
+    ok = all(b is not None for b in bs) and bs[0][0] == (0.0, True)
+    if ok:
+        for (lo1, hi1), (lo2, hi2) in zip(bs, bs[1:]):
+            ok = ok and hi1 is not None and lo2 is not None and hi1[0] == lo2[0] and hi1[1] != lo2[1]
+        ok = ok and bs[-1][1] is None and not tail
+    ctx.check(ok, "R07g", f"{AVZ}.__init__.<get_signal>", "the width arms partition [0, inf): first arm starts at eps >= 0, each arm starts where the previous one ends, nothing applies below 0",
+              str([u(t) for t in arms]), key_detail="epsilon interval chain", loc=ctx.loc("pyrex.askaryan", chain[0]))
+    body = [u(x) for x in g.body]
+    i_def = next((i for i, t in enumerate(body) if t == "dThetaHad = 0"), None)
+    ok = i_def is not None and i_def < g.body.index(chain[0])
+    ctx.check(ok, "R07g", f"{AVZ}.__init__.<get_signal>", "the width defaults to 0 before the chain", "", key_detail="default width")
+    had = [n for n in g.body if isinstance(n, ast.If) and "had_frac" in u(n.test)]
+    ok = len(had) == 1 and "np.any(dThetaHad != 0)" in u(had[0].test)
+    ctx.check(ok, "R07g", f"{AVZ}.__init__.<get_signal>", "the hadronic term (which divides by the width) is evaluated only when the width is non-zero", u(had[0].test) if had else "",
+              key_detail="width guard")
+    z = [n for n in g.body if isinstance(n, ast.If) and u(n.test) == "self.had_energy == 0"]
+    ok = len(z) == 1 and u(z[0].body[0]) == "epsilon = -np.inf" and u(z[0].orelse[0]) == "epsilon = np.log10(self.had_energy / 1000.0)"
+    ctx.check(ok, "R07g", f"{AVZ}.__init__.<get_signal>", "zero hadronic energy is mapped to eps = -inf (outside every arm) instead of log10(0)", "", key_detail="zero hadronic energy")
+
+
 def run(ctx):
+    ctx.guard(r07g)
     ctx.guard(r07a)
     ctx.guard(r07b)
     ctx.guard(r07c)
@@ -266,6 +336,8 @@ def run(ctx):
 
 SELFTEST = {
     "faults": [
+        {"name": "lower bound of the hadronic width chain dropped", "file": "pyrex/askaryan.py", "old": "            if (epsilon >= 0 and epsilon <= 2):", "new": "            if (epsilon <= 2):",
+         "rule": "R07g"},
         {"name": "1/R^2", "file": "pyrex/askaryan.py", "old": "            e_omega /= viewing_distance\n", "new": "            e_omega /= viewing_distance**2\n", "rule": "R07a", "construct": "ZHS"},
         {"name": "sqrt(R) in ARZ convolution arm", "file": "pyrex/askaryan.py", "old": "        return np.diff(A) / viewing_distance", "new": "        return np.diff(A) / np.sqrt(viewing_distance)",
          "rule": "R07a", "construct": "ARZ"},
